@@ -498,7 +498,10 @@ func (w *worker[T, JobType]) stopAndRemoveAllWorkers() {
 }
 
 func (w *worker[T, JobType]) start() error {
-	if w.IsRunning() {
+	// Only a worker that has never run (or that Restart has just reset) may start.
+	// Binding another queue to a paused or stopped worker must not resume it behind
+	// the caller's back with a second event loop.
+	if w.status.Load() != initiated {
 		return ErrRunningWorker
 	}
 
